@@ -468,6 +468,7 @@ def run_c14(ctx, fa):
                "{md5}", "{}", "{0}", "SHA-{256}", "%s", "{algorithm}", "md5\n", "\u00e9"]
     texts = ["", "a", "\"int\"", "é", "😀", "\u0000", "a" * 300, "\U0010ffff" * 3]
     texts += _rare_crc_texts(rnd)
+    big_text = "é€" * 16000 + "a" * 40000          # > 64 KiB of UTF-8, fewer characters than bytes: digests only (see below)
     while len(texts) < n // 3:
         x = rnd.random()
         if x < 0.4:
@@ -483,6 +484,8 @@ def run_c14(ctx, fa):
     for i in range(n):
         text = texts[i % len(texts)] if i < 2 * len(texts) else rnd.choice(texts)
         alg = rnd.choice(unknown) if rnd.random() < 0.12 else rnd.choice(algs)
+        if i >= n - 4:
+            text, alg = big_text, ["MD5", "SHA-256", "sha1", "md5"][n - 1 - i]
         if i < len(algs):
             alg = algs[i]
         elif 8 <= i % len(texts) < 19 and i < len(texts):
